@@ -204,6 +204,8 @@ def _read_chunked(s: bytes, pos: int, msg: Msg, strict: bool = True):
     except Reject as r:
         raise Reject("trailer:" + r.cls, r.offset, r.detail)
     except Incomplete as i:
+        # how many trailer lines had already arrived (limit monitors count them against max_headers)
+        msg.partial_trailer_lines = s.count(b"\n", pos)
         raise Incomplete(i.offset, "trailer", bytes(body))
     msg.trailers = trailers
     for n, _v in trailers:
